@@ -262,7 +262,8 @@ pub fn main(args: &[String]) -> i32 {
         let call_idx = calls.len() as u64;
         if r < 45 {
             // put (plain, TTL, explicit lower/higher timestamp, ghost-embedding value)
-            let use_ttl = ttl && fmt >= 2 && rng.random_range(0..4) == 0;
+            // on a v1 device (no expiry field) every TTL write must be refused: tried now and then
+            let use_ttl = ttl && rng.random_range(0..(if fmt >= 2 { 4 } else { 10 })) == 0;
             let mut val: Vec<u8> = {
                 let mut n = sizes[rng.random_range(0..sizes.len())];
                 if edge_pct > 0 && rng.random_range(0..100) < edge_pct && key.len() < 1000 {
@@ -299,7 +300,10 @@ pub fn main(args: &[String]) -> i32 {
             }
             obs::api("api_call", &key, call_idx, 0, 0);
             let as_bytes = rng.random_bool(0.4);
+            let short = ts_choice.is_none() && rng.random_bool(0.5);
             let res = match (use_ttl, as_bytes) {
+                (true, false) if short => store.insert_with_ttl(&key, &val, rng.random_range(1..3)),
+                (true, true) if short => store.insert_bytes_with_ttl(&key, bytes::Bytes::from(val.clone()), rng.random_range(1..3)),
                 (true, false) => store.insert_with_ttl_and_timestamp(&key, &val, rng.random_range(1..3), ts_choice),
                 (true, true) => store.insert_bytes_with_ttl_and_timestamp(&key, bytes::Bytes::from(val.clone()), rng.random_range(1..3), ts_choice),
                 (false, true) => store.insert_bytes_with_timestamp(&key, bytes::Bytes::from(val.clone()), ts_choice),
